@@ -91,3 +91,20 @@ Example C07_example_ordered :
   std_ok (fun a b => match a, b with VStr s, VStr t => if list_eq_dec N.eq_dec s t then true else false | _, _ => false end) od /\
   norm 1000 true (std_print od) = std_print od.
 Proof. split; vm_compute; reflexivity. Qed.
+
+(** (4) and at the engine level: the stream the model of the layout engine
+        emits for a collection glues to the tokens of an expression evaluating
+        to that call (C01_engine_output_evaluates instantiated). *)
+From PP Require Import Sem Normalize Layout Render Pformat PrettyToks1 PrettyToks3 StrBridge EndToEnd.
+Theorem C07_collections_engine_output :
+  forall (printable sp wd lb : N -> bool) (fuel ff : nat) (env : str -> option target),
+    env n_float = None -> env n_frozenset = None -> env n_set = None ->
+    forall (x : stdval) (indent width rw : Z) (n : Z) (sort : bool) (out : list sdoc),
+    (1 <= n)%Z -> wf_val (std_print x) -> evaluable env (std_print x) ->
+    sdocs_model printable sp wd lb fuel ff (std_print x) indent width rw None n sort = Some out ->
+    exists e, Glue printable (rtoks (strip out) NNormal) (etoks e) /\ eval env e = Some (norm n sort (std_print x)).
+Proof.
+  intros printable sp wd lb fuel ff env E1 E2 E3 x indent width rw n sort out Hn Hw He H.
+  exact (engine_output_evaluates printable sp wd lb fuel ff env E1 E2 E3 (std_print x) indent width rw n sort out Hn Hw He H).
+Qed.
+Print Assumptions C07_collections_engine_output.
